@@ -1,6 +1,7 @@
 import Guard
 import Guard.Judge.C02
 import Guard.Spec.Spec
+import Guard.Model.Cli
 import Lean.Data.Json
 /-
   guard_model — line-protocol driver for the executable model.
@@ -327,6 +328,32 @@ def handle (j : Json) : Json :=
     | .undefined => Json.mkObj [("id", id), ("spec", "undefined")]
     | .outside => Json.mkObj [("id", id), ("spec", "outside")]
     | .fuel => Json.mkObj [("id", id), ("spec", "fuel")]
+  | "exit" =>
+    -- exit-code folds of the Cli model
+    let stOf (j : Json) : Option Status := if jisNull j then none else some (parseStatus (jstr j))
+    let ruleFile (j : Json) : Cli.RuleFile := match jstr (jfield j "k") with
+      | "unreadable" => .unreadable
+      | "parseError" => .parseError
+      | "empty" => .empty
+      | _ => .evaluated ((jarr (jfield j "cols")).map stOf)
+    let testFile (j : Json) : Cli.TestFile := match jstr (jfield j "k") with
+      | "unparsable" => .unparsable
+      | _ => .specs ((jarr (jfield j "mismatch")).map jbool)
+    let testRules (j : Json) : Cli.TestRules := match jstr (jfield j "k") with
+      | "bad" => .bad
+      | "empty" => .empty
+      | _ => .ok ((jarr (jfield j "files")).map testFile)
+    let code : Int := match jstr (jfield j "cmd") with
+      | "validate" =>
+        let m : Cli.Mode := match jstr (jfield j "mode") with
+          | "structured" => .structured | "junit" => .junit | _ => .plain
+        Cli.mainExit (Cli.validateExit m ((jarr (jfield j "files")).map ruleFile))
+      | "test-single-plain" => Cli.testSinglePlain (testRules (jfield j "rules"))
+      | "test-single-structured" => Cli.testSingleStructured (testRules (jfield j "rules"))
+      | "test-dir-plain" => Cli.testDirPlain Cli.T_OK ((jarr (jfield j "rules")).map testRules)
+      | "test-dir-structured" => Cli.testDirStructured Cli.T_OK ((jarr (jfield j "rules")).map testRules)
+      | _ => -1
+    Json.mkObj [("id", id), ("exit", toJson code)]
   | "consistent" =>
     let t := parseRec (jfield j "tree")
     let ok := Consistent t
